@@ -13,6 +13,8 @@ import (
 	"runtime"
 	"sort"
 	"strings"
+	"sync"
+	"sync/atomic"
 	"testing"
 	"time"
 	"unicode/utf8"
@@ -493,4 +495,156 @@ func TestC13(t *testing.T) {
 			r.Count("hostile_stores", 1)
 		}
 	})
+	if r.Violations() == 0 {
+		concurrentPhase(t, r)
+	}
+}
+
+// concurrentPhase: scrapes taken while label sets of the scraped metric are
+// removed and created again (del / expiry / limits / new labels in a live
+// server). Every label set always carries the same distinctive value;
+// mutations and scrapes are stamped from one logical clock, and a label set
+// no mutation of which overlaps a scrape was present and unchanged for the
+// whole scrape, so the exposition must list it exactly once with its value —
+// and, whatever it observed, the scrape must succeed and never list a series
+// twice.
+func concurrentPhase(t *testing.T, r *ev.Run) {
+	st := metrics.NewStore()
+	e, err := exporter.New(context.Background(), st, exporter.Hostname("h"), exporter.DisableExport())
+	if err != nil {
+		t.Fatal(err)
+	}
+	defer e.Stop()
+	reg := prometheus.NewRegistry()
+	if err := reg.Register(e); err != nil {
+		t.Fatal(err)
+	}
+	m := metrics.NewMetric("cc", "p", metrics.Counter, metrics.Int, "k")
+	const nSets = 32
+	key := func(i int) string { return fmt.Sprintf("s%d", i) }
+	for i := 0; i < nSets; i++ {
+		d, _ := m.GetDatum(key(i))
+		datum.SetInt(d, int64(7000+i), time.Unix(2000+int64(i), 0))
+	}
+	if err := st.Add(m); err != nil {
+		t.Fatal(err)
+	}
+	type span struct{ s, e int64 }
+	var clk atomic.Int64
+	var logMu sync.Mutex
+	ops := make([][]span, nSets)
+	stop := make(chan struct{})
+	var mut sync.WaitGroup
+	var flips atomic.Int64
+	for w := 0; w < 2; w++ {
+		w := w
+		mut.Add(1)
+		go func() {
+			defer mut.Done()
+			for n := 0; ; n++ {
+				select {
+				case <-stop:
+					return
+				default:
+				}
+				i := (2*n + w) % nSets
+				logMu.Lock()
+				ops[i] = append(ops[i], span{clk.Add(1), math.MaxInt64})
+				at := len(ops[i]) - 1
+				logMu.Unlock()
+				_ = m.RemoveDatum(key(i))
+				if n%5 == 0 {
+					runtime.Gosched()
+				}
+				d, _ := m.GetDatum(key(i))
+				datum.SetInt(d, int64(7000+i), time.Unix(2000+int64(i), 0))
+				logMu.Lock()
+				ops[i][at].e = clk.Add(1)
+				logMu.Unlock()
+				flips.Add(1)
+				runtime.Gosched()
+			}
+		}()
+	}
+	var judged, scrapes atomic.Int64
+	n := ev.Pick(200, 4000)
+	var wg sync.WaitGroup
+	for _, path := range []string{"handler", "write"} {
+		path := path
+		wg.Add(1)
+		go func() {
+			defer wg.Done()
+			for it := 0; it < n && r.Violations() == 0; it++ {
+				var text []byte
+				what := ""
+				c0 := clk.Add(1)
+				if path == "handler" {
+					rec := httptest.NewRecorder()
+					promhttp.HandlerFor(reg, promhttp.HandlerOpts{}).ServeHTTP(rec, httptest.NewRequest("GET", "/metrics", nil))
+					text = rec.Body.Bytes()
+					if rec.Code != 200 {
+						what = fmt.Sprintf("/metrics returned %d: %s", rec.Code, strings.TrimSpace(string(text)))
+					}
+				} else {
+					var buf bytes.Buffer
+					if err := e.Write(&buf); err != nil {
+						what = "Exporter.Write failed: " + err.Error()
+					}
+					text = buf.Bytes()
+				}
+				c1 := clk.Add(1)
+				if what == "" {
+					var tp expfmt.TextParser
+					fams, err := tp.TextToMetricFamilies(bytes.NewReader(text))
+					if err != nil {
+						what = "exposition does not parse: " + err.Error()
+					} else {
+						seen := map[string][]float64{}
+						if f := fams["cc"]; f != nil {
+							for _, pm := range f.Metric {
+								for _, lp := range pm.Label {
+									if lp.GetName() == "k" {
+										seen[lp.GetValue()] = append(seen[lp.GetValue()], pm.GetCounter().GetValue())
+									}
+								}
+							}
+						}
+						logMu.Lock()
+						for i := 0; i < nSets && what == ""; i++ {
+							stable := true
+							for _, o := range ops[i] {
+								if o.s <= c1 && o.e >= c0 {
+									stable = false
+								}
+							}
+							vs := seen[key(i)]
+							switch {
+							case len(vs) > 1:
+								what = fmt.Sprintf("series cc{k=%q} is listed %d times", key(i), len(vs))
+							case stable && (len(vs) != 1 || vs[0] != float64(7000+i)):
+								what = fmt.Sprintf("label set k=%s (present and unmodified for the whole scrape, value %d) is exported as %v", key(i), 7000+i, vs)
+							}
+							if stable {
+								judged.Add(1)
+							}
+						}
+						logMu.Unlock()
+					}
+				}
+				if what != "" {
+					r.Violation("concurrent-"+strings.Join(strings.Fields(what)[:2], "-"), map[string]any{"path": path, "what": what + "; the scrape ran while other label sets of the metric were being removed and re-created", "text": string(text)})
+					return
+				}
+				scrapes.Add(1)
+			}
+		}()
+	}
+	wg.Wait()
+	close(stop)
+	mut.Wait()
+	r.Eval(1)
+	r.Count("concurrent_scrapes_judged", int(scrapes.Load()))
+	r.Count("concurrent_stable_label_sets_judged", int(judged.Load()))
+	r.Count("concurrent_label_set_removals_and_creations", int(flips.Load()))
+	r.Floor("concurrent_stable_label_sets_judged", 1000)
 }
